@@ -230,6 +230,17 @@ def validate(ctx, pat, module, trace, jobs, what):
     return False
 
 
+def replay_job(ctx, body):
+    """Re-executes the program of a replay file on the current tree and re-validates it (for `--replay`)."""
+    job = body.get("job")
+    if not job:
+        return None
+    vp.cargo_build([DRIVER])
+    trace, _ = execute(ctx, [job], "replay")
+    module = "BlackboardTrace" if job.get("pat") == "bb" else "EventLimitsTrace"
+    return validate(ctx, job.get("pat"), module, trace, [job], "replay")
+
+
 def split_pattern(trace, pat, out):
     recs = vp.read_ndjson(trace)
     keep = [r for run in vp.split_runs(recs) if run[0].get("pat") == pat for r in run]
@@ -374,7 +385,7 @@ def c12_blackboard(ctx):
         selftest(ctx, "BlackboardTrace", trace, lambda r: r.get("a") == "we" and r.get("res") == "HandleAlreadyExists",
                  lambda r: r.update(res="ok"), "second_handle_granted", ("OneHandlePerKey", "BeyondRejected"))
         selftest(ctx, "BlackboardTrace", trace, lambda r: r.get("a") == "get" and r.get("v", 0) >= 2,
-                 lambda r: r.update(v=r["v"] - 1), "stale_value", ("ReadSeesLatest", "FailureLeavesFirstUndisturbed", "Monotone"))
+                 lambda r: r.update(v=r["v"] - 1), "stale_value", ("ReadSeesLatest", "ReadIsSomeWrite", "FailureLeavesFirstUndisturbed", "Monotone"))
         selftest(ctx, "BlackboardTrace", trace, lambda r: r.get("a") == "upd", None, "dropped_update")
         selftest(ctx, "BlackboardTrace", trace, lambda r: r.get("a") == "cw" and r.get("res") != "ok",
                  lambda r: r.update(nw=r["nw"] + 1), "registry_leftover", ("RefusalHasNoSideEffect", "CountsExact", "FailureLeavesFirstUndisturbed"))
